@@ -14,8 +14,10 @@ import (
 	"go/token"
 	"go/types"
 	"hash/crc32"
+	"math/bits"
 	"os"
 	"sort"
+	"strings"
 
 	"golang.org/x/tools/go/ssa"
 )
@@ -1097,6 +1099,44 @@ func (in *Interp) doCall(fr *frame, x *ssa.Call, depth int) (res aval, panicked,
 		if (pp == "errors" && callee.Name() == "New") || (pp == "fmt" && callee.Name() == "Errorf") {
 			return aval{k: kErr}, false, true
 		}
+	}
+	if callee.Pkg != nil && callee.Pkg.Pkg.Path() == "math/bits" && len(cc.Args) == 1 {
+		// bit counting of the standard library on a concrete value
+		if v, okV := in.get(fr, cc.Args[0]).Int(); okV {
+			w := uint(64)
+			switch {
+			case strings.HasSuffix(callee.Name(), "8"):
+				w = 8
+			case strings.HasSuffix(callee.Name(), "16"):
+				w = 16
+			case strings.HasSuffix(callee.Name(), "32"):
+				w = 32
+			case strings.HasSuffix(callee.Name(), "64"):
+				w = 64
+			default:
+				if b, _, okW := in.intBits(cc.Args[0].Type()); okW {
+					w = b
+				}
+			}
+			u := uint64(v)
+			if w < 64 {
+				u &= 1<<w - 1
+			}
+			switch strings.TrimRight(callee.Name(), "0123456789") {
+			case "Len":
+				return aInt(int64(bits.Len64(u)), x.Type()), false, true
+			case "LeadingZeros":
+				return aInt(int64(w)-int64(bits.Len64(u)), x.Type()), false, true
+			case "TrailingZeros":
+				if u == 0 {
+					return aInt(int64(w), x.Type()), false, true
+				}
+				return aInt(int64(bits.TrailingZeros64(u)), x.Type()), false, true
+			case "OnesCount":
+				return aInt(int64(bits.OnesCount64(u)), x.Type()), false, true
+			}
+		}
+		return aUnknown, false, true
 	}
 	if !in.C.InModule(callee) || callee.Blocks == nil {
 		return aUnknown, false, true
